@@ -7,11 +7,10 @@
    (Section variables; the only fact used is that exactly code 0 decodes to a falsy error). *)
 From Coq Require Import List NArith ZArith Bool Lia.
 From MW Require Import Common.Str C19.Gen_writers C19.Model C19.Proofs C19.ProofsCD C19.ProofsLife.
-From MW Require C16.Model C16.Proofs C19.QueueInv.
+From MW Require C16.Model C19.QueueInv.
 Import ListNotations.
 
 Module Q := MW.C16.Model.
-Module QP := MW.C16.Proofs.
 Module QI := MW.C19.QueueInv.
 
 Section Compose.
@@ -112,7 +111,7 @@ Section Compose.
   Proof.
     intros E L D. unfold QI.job_at in *. rewrite L in E.
     destruct (QI.mark_finished_fields ser u s j E D) as (j' & G & H1 & H2 & H3 & H4 & _).
-    exists j'. destruct (QP.mark_fields ser u s) as (_ & _ & _ & Hi & _). rewrite Hi, L. auto.
+    exists j'. rewrite QI.mark_ids, L. auto.
   Qed.
 
   (* rpc_qfinish by an idle connection on a job that is not done: the snapshot carries exactly that outcome *)
